@@ -282,6 +282,10 @@ class Fit(Base):
 
     @samples.setter
     def samples(self, samples):
+        # Load the current row first: assigning to a scalar relationship that is not loaded
+        # (a fit queried or committed earlier) does not detach the old row, which would then
+        # stay attached next to the new one and keep being returned.
+        _ = self._samples
         self._samples = Object.from_object(
             EfficientSamples(samples),
         )
@@ -293,6 +297,7 @@ class Fit(Base):
 
     @latent_samples.setter
     def latent_samples(self, latent_samples):
+        _ = self._latent_samples
         self._latent_samples = Object.from_object(latent_samples.minimise())
 
     @property
